@@ -56,7 +56,7 @@ Theorem C17_inline_trcl_m_rejected : forall T (S : Scalar T) (d : deckm (T:=T)) 
   In c (d_cells d) -> c_toks c = (pre ++ e :: ps ++ rest)%list -> skippable pre n ->
   prefix "imp" (tsp e) = false -> contains_sub "fill" (tsp e) = false ->
   contains_sub "lat" (tsp e) = false -> contains_sub "trcl" (tsp e) = true ->
-  forallb numeric_lead ps = true -> forallb (fun p => float_lit (tsp p)) ps = true ->
+  forallb numeric_lead ps = true -> forallb (fun p => num_lit (tsp p)) ps = true ->
   stops rest -> List.length ps = 13%nat ->
   seqb S (last (map tval ps) (s1 S)) (s1 S) = false ->
   is_ok (validate S d) = false.
@@ -69,7 +69,7 @@ Theorem C17_inline_fill_m_rejected : forall T (S : Scalar T) (d : deckm (T:=T)) 
   In c (d_cells d) -> c_toks c = (pre ++ e :: u :: ps ++ rest)%list -> skippable pre n ->
   prefix "imp" (tsp e) = false -> contains_sub "fill" (tsp e) = true ->
   has_colon u = false -> float_lit (tsp u) = true ->
-  forallb numeric_lead ps = true -> forallb (fun p => float_lit (tsp p)) ps = true ->
+  forallb numeric_lead ps = true -> forallb (fun p => num_lit (tsp p)) ps = true ->
   stops rest -> List.length ps = 13%nat ->
   seqb S (last (map tval ps) (s1 S)) (s1 S) = false ->
   is_ok (validate S d) = false.
@@ -78,12 +78,12 @@ Print Assumptions C17_inline_fill_m_rejected.
 
 (* the same at the level of the two keyword functions, wherever the keyword
    sits (parse_trcl_kw; the transformation part of parse_fill_kw) *)
-Theorem C17_inline_m_rejected : forall T (S : Scalar T) star trs (ps rest : list (tok (T:=T))),
-  forallb numeric_lead ps = true -> forallb (fun p => float_lit (tsp p)) ps = true ->
+Theorem C17_inline_m_rejected : forall T (S : Scalar T) isfill star trs (ps rest : list (tok (T:=T))),
+  forallb numeric_lead ps = true -> forallb (fun p => num_lit (tsp p)) ps = true ->
   stops rest -> List.length ps = 13%nat ->
   seqb S (last (map tval ps) (s1 S)) (s1 S) = false ->
   parse_trcl S star trs (ps ++ rest) = Err ETransformation /\
-  fill_params S star trs (ps ++ rest) = Err ETransformation.
+  fill_params S isfill star trs (ps ++ rest) = Err ETransformation.
 Proof. exact @p_C17_inline_m_rejected. Qed.
 Print Assumptions C17_inline_m_rejected.
 
